@@ -14,7 +14,7 @@ EXPLANATION = (
     "configured blocks_source as destination. "
     "Does NOT decide: which byte strings the bitcoin crate's decoder accepts (trusted).")
 RULES = {
-    'R1': 'DOM chain of guards/charge/decode; GATE(decode => counter, forward); WRITERS(counter); CALLERS(forward)',
+    'R1': 'DOM chain of guards/charge/decode; GATE(decode => counter, forward); WRITERS(counter); CALLERS(forward); Err only on decode failure; verify_synced not reachable',
     'R2': 'every consensus decode of request bytes is length-exact (deserialize) or followed by an emptiness test gating acceptance',
     'R3': 'forwarded payload = request.transaction (no mutable borrow), network = request.network, destination = state.blocks_source',
 }
